@@ -123,7 +123,8 @@ def build(tier: str) -> List[Cond]:
 
 
 def run(tier: str, seed: int, only=None) -> Report:
-    conds = build(tier)
+    from ..ch import tier_conds
+    conds = tier_conds(build, tier, cap=900)
     if only:
         conds = [c for c in conds if only in c.oid]
     rep = Report(
